@@ -176,11 +176,12 @@ func (opinion VoteOpinion) String() string {
 }
 
 func (opinion VoteOpinion) Err() error {
-	opName := opinion.String()
-	if opName == "" {
+	switch opinion {
+	case OPIN_UNKNOWN, OPIN_POSITIVE, OPIN_NEGATIVE, OPIN_GIVEUP:
+		return nil
+	default:
 		return errors.New("vote opinion must be one of [UNKNOWN, POSITIVE, NEGATIVE, GIVEUP]")
 	}
-	return nil
 }
 
 func (opinion VoteResult) String() string {
